@@ -3,7 +3,7 @@ usage: seedcheck.py <prop> <k> <worktree> [extra props to check ...]"""
 import json, os, shutil, subprocess, sys, time
 prop, k, wt = sys.argv[1], sys.argv[2], sys.argv[3]
 extra = sys.argv[4:]
-out = '/verif/seeded/%s-%s' % (prop, k)
+out = '/verif/seeded/%s-%s' % (prop, int(k) + int(os.environ.get('SEED_ID_OFFSET', '0')))
 os.makedirs(out, exist_ok=True)
 src = os.path.join(wt, 'seeded_out')
 for a, b in (('patch_%s.diff' % k, 'patch.diff'), ('demo_%s.py' % k, 'demo.py'), ('notes_%s.txt' % k, 'notes.txt')):
@@ -12,7 +12,7 @@ for a, b in (('patch_%s.diff' % k, 'patch.diff'), ('demo_%s.py' % k, 'demo.py'),
 def run(cmd, cwd=None, env=None, timeout=1800):
   p = subprocess.run(cmd, shell=True, cwd=cwd, env=env, stdout=subprocess.PIPE, stderr=subprocess.STDOUT, timeout=timeout)
   return p.returncode, p.stdout.decode(errors='replace')
-meta = {'property': prop, 'seed': k, 'ran': []}
+meta = {'property': prop, 'seed': str(int(k) + int(os.environ.get('SEED_ID_OFFSET', '0'))), 'ran': []}
 env = dict(os.environ, PYTHONPATH=wt)
 # 1. in the scratch worktree: demo passes without, fails with; tests pass with
 rc0, o0 = run('/venv/bin/python %s/demo.py' % out, cwd=wt, env=env)
